@@ -151,11 +151,11 @@ ValidSpec(n, items) ==
     /\ \A i, j \in 1..Len(items) : i < j => KindIdx(items[i].kind) < KindIdx(items[j].kind)
 
 \* ------------------------------------------------------------------ decomposition runs (binding 2)
-RunShapes(n) == IF n = 3 THEN {<<3, 4, 2>>, <<4, 3, 3>>}
-                ELSE IF n = 4 THEN {<<3, 2, 3, 2>>, <<2, 3, 2, 4>>} ELSE {}
+RunShapes(n) == IF n = 3 THEN {<<3, 4, 2>>, <<4, 3, 3>>, <<3, 1, 4>>}              \* incl. a size-1 mode
+                ELSE IF n = 4 THEN {<<3, 2, 3, 2>>, <<2, 3, 2, 4>>, <<2, 3, 1, 3>>} ELSE {}
 RunRanks  == {1, 2, 3}
 RunInits  == {"svd", "random", "user"}     \* "user": an entrywise non-negative CP tensor supplied by the caller
-RunOuter  == {1, 2, 5}
+RunOuter  == {0, 1, 2, 5}   \* 0: the initial factors are returned (built-in inits go through the prox first)
 RunInner  == {1, 10}         \* never 0: admm(n_iter_max=0) raises UnboundLocalError before returning
 RunData   == {"signed", "sparse", "allneg"}
 (* fixed_modes ("A list of modes for which the initial value is not modified.  The last mode cannot *)
@@ -167,9 +167,37 @@ RunFixed(n) == {SortedSeq(S) : S \in SUBSET (0..(n - 2))}
 RunVia    == {"function", "class"}      \* constrained_parafac(...) / ConstrainedCP(...).fit_transform
 ValidFixed(n, f) == /\ \A j \in 1..Len(f) : f[j] \in 0..(n - 2)
                     /\ \A j \in 1..(Len(f) - 1) : f[j] < f[j + 1]
+(* VALUE regimes: the data are multiplied by 2^scale (exact) and stored as dtype.  The hard        *)
+(* constraints are scale-free (signs, order, counts, unit norm, unit max) or have absolute radii    *)
+(* (simplex, l1 ball), so the feasibility predicates do not change with the units of the data.      *)
+(* float32 only with scales that keep every Gram product inside the float32 range.                  *)
+RunScales == {0, -70, -30, 40}
+RunDtypes == {"float64", "float32"}
+ValidValues(r) == /\ r.scale \in RunScales /\ r.dtype \in RunDtypes
+                  /\ (r.dtype = "float32" => r.scale \in {0, -30})
+\* float32 data of scale 2^-30: products of a few such numbers leave the float32 range, a factor can
+\* underflow to exactly 0 and the unit-norm / unit-max kinds then have no representative (0/0).  In
+\* this regime only, a non-finite returned factor is a numerical break-down without obligation.
+UnderflowRegime(r) == r.dtype = "float32" /\ r.scale < 0
+\* parameter shifts for SEQUENCES of decompositions run back to back in one process: the same
+\* keywords, forms and modes with the numeric parameters p, p+2, p+4 in some order -- every member
+\* is judged by ITS OWN specification (nothing may survive from an earlier call)
+SeqShifts == {0, 2, 4}
 ValidRun(n, r) == /\ r.shape \in RunShapes(n) /\ r.rank \in RunRanks /\ r.init \in RunInits
-                  /\ ValidFixed(n, r.fixed) /\ r.via \in RunVia
+                  /\ ValidFixed(n, r.fixed) /\ r.via \in RunVia /\ ValidValues(r)
                   /\ r.outer \in RunOuter /\ r.inner \in RunInner /\ r.data \in RunData
+                  /\ (r.outer = 0 => r.init # "user")     \* a user start returned untouched: nothing to check
+(* Which modes carry the obligation.  initialize_constrained_parafac documents that the built-in    *)
+(* initialisations are passed through the proximal operator "so that they satisfy the imposed       *)
+(* constraints (does not apply to cptensor initialization)"; fixed_modes keeps "the initial value". *)
+(* Hence: a free mode is always obliged (ADMM returns the prox output; with a zero outer budget it   *)
+(* is the projected built-in start); a FIXED mode is obliged exactly when the start is built-in; a  *)
+(* fixed mode of a user start is returned as supplied (C14) and carries no obligation.              *)
+BuiltinInit(r) == r.init \in {"svd", "random"}
+ObligedModes(n, items, r) ==
+    {m \in Requested(n, items) : Assign(n, items)[m].kind \in HardKinds /\ (m \notin SeqRange(r.fixed) \/ BuiltinInit(r))}
+\* operator events: proximal_operator(v, <spec>, n_const = n, order = mode) on a rows x cols matrix
+ValidProx(n, r) == /\ r.rows \in 2..4 /\ r.cols \in 1..3 /\ r.mode \in Modes(n) /\ r.data \in RunData /\ ValidValues(r)
 \* exceptions that are numerical break-downs of the linear algebra, not a statement about constraints
 NumericFailure == {"LinAlgError"}
 
@@ -177,12 +205,12 @@ NumericFailure == {"LinAlgError"}
 (* Measurements of a returned factor F (rows x rank), by the harness, quantised q(x) = rint(x*Scale): *)
 (*   F.rows, F.nnz (exact count of non-zero entries), F.fro = q(||F||_F), F.maxabs = q(max|F|),       *)
 (*   F.cols[c] = [minsign |-> sign(min) in {-1,0,1} (exact), sum, l1, l2, maxabs (quantised),        *)
-(*                nnz (exact), diffs |-> <<q((x[i+1]-x[i]) / s)>>]  with  s = max(1, max|F|)          *)
+(*                nnz (exact), diffs |-> <<q((x[i+1]-x[i]) / s)>>]  with  s = max|F| (1 if F = 0)     *)
 (*   F.finite  = no NaN / infinity in F (otherwise every number is logged as 0)                      *)
 (* A quantised magnitude beyond 2*10^9 (|x| >= 200) is SATURATED to +-2*10^9: every comparison below  *)
 (* that involves it (against r <= 9 or against 1) then has the same truth value as for the real       *)
 (* number.  First differences are taken relative to s, so they are always in range and the monotone   *)
-(* / unimodal tolerance is 1e-6 relative to the largest entry (absolute for factors within [-1,1]).   *)
+(* / unimodal tolerance is 1e-6 relative to the largest entry, whatever the units of the data.        *)
 (* (TLC cannot test "x \in Int" on a string, so non-finite factors are flagged, not encoded.)         *)
 Scale == 10000000           \* 10^7
 Tol   == 10                 \* 10^-6
@@ -315,7 +343,7 @@ Init == \/ cfg \in {[op |-> "root", n |-> n, first |-> <<it>>] : <<n, it>> \in U
         \/ cfg \in {[op |-> "root", n |-> n, first |-> <<>>] : n \in Orders}
         \/ cfg \in {[op |-> "colroot", x |-> x] : x \in Columns}
         \/ cfg \in {[op |-> "col4", x |-> x] : x \in [1..4 -> ColVals]}
-        \/ cfg \in {[op |-> "rundomain", n |-> n, shapes |-> RunShapes(n), ranks |-> RunRanks, inits |-> RunInits, fixed |-> RunFixed(n), via |-> RunVia,
+        \/ cfg \in {[op |-> "rundomain", n |-> n, shapes |-> RunShapes(n), ranks |-> RunRanks, inits |-> RunInits, fixed |-> RunFixed(n), via |-> RunVia, scales |-> RunScales, dtypes |-> RunDtypes, shifts |-> SeqShifts,
                      outer |-> RunOuter, inner |-> RunInner, data |-> RunData] : n \in Orders}
 Next == \/ /\ cfg.op = "root"
            /\ \/ cfg' = SpecState(cfg.n, cfg.first)
